@@ -120,6 +120,7 @@ func (p *Poller) Polling(callback func(fd int, ev uint32) error, trick func(), m
 	var doChores bool
 
 	for {
+		verifGate()
 		trick()
 		n, err := unix.EpollWait(p.fd, el.events, 200)
 		if n == 0 || (n < 0 && err == unix.EINTR) {
@@ -133,6 +134,7 @@ func (p *Poller) Polling(callback func(fd int, ev uint32) error, trick func(), m
 
 		for i := 0; i < n; i++ {
 			ev := &el.events[i]
+			verifSeen(int(ev.Fd), ev.Events)
 			if fd := int(ev.Fd); fd != p.efd {
 				switch err = callback(fd, ev.Events); err {
 				case nil:
